@@ -76,7 +76,9 @@ def gen(rng, tier):
         sel_full = 'mm.K'
       elif target == 'bare_method':
         param = 'ma'
-        sel_full = 'meth'
+        # without its class: bare, or under the module it was first registered
+        # in (before the class took it over)
+        sel_full = rng.choice(['meth', 'meth', 'ginsim_probes.meth', 'mm.meth'])
       else:
         param = 'a'
         sel_full = rng.choice(['never_registered', 'mm.s0.ghost'])
@@ -97,6 +99,19 @@ def gen(rng, tier):
       new['api'] = 'configurable'
       ops.append({'op': 'reregister', 'probe': spec['name'], 'spec': new,
                   'interactive': rng.random() < 0.8})
+    elif r < 0.845 and rng.random() < 0.5:
+      # the very same callable registered once more under the same name, with
+      # other lists (accepted outside interactive mode): the lists given last
+      # are the ones in force
+      spec = rng.choice(specs)
+      names = [p['n'] for p in spec['params']]
+      if names:
+        new = copy.deepcopy(spec)
+        new.pop('allow', None)
+        new.pop('deny', None)
+        chosen = sorted(n for n in names if rng.random() < 0.6) or [names[0]]
+        new[rng.choice(['allow', 'deny'])] = chosen
+        ops.append({'op': 'relist', 'probe': spec['name'], 'spec': new})
     elif r < 0.84:
       # a dynamic-registration text configures a not yet registered method of the
       # (statically registered, denylisted) class K, which re-registers K
@@ -145,7 +160,7 @@ def run(case):
   viol = []
   received = {}
   stats = {'rejected_nonempty': 0, 'accepted': 0, 'reregistered': 0,
-           'hook_rejected': 0, 'hook_applied': 0}
+           'hook_rejected': 0, 'hook_applied': 0, 'relisted': 0}
 
   def v(oracle, disc, msg):
     if len(viol) < 12:
@@ -163,10 +178,15 @@ def run(case):
     obj, _ = probes.compile_probe(spec, hook)
     return obj
 
+  originals = {}
+  first_spec = {}
   for s in case['specs']:
     obj = build(s)
     objs[s['name']] = probes.register_probe(s, obj)
     current[s['name']] = s
+    first_spec[s['name']] = s
+    if s['kind'] == 'fn':
+      originals[s['name']] = obj
   g = {'_hook': hook, '__name__': 'ginsim_probes'}
   exec(compile(K_SRC, '<K>', 'exec'), g)  # pylint: disable=exec-used
   K = g['K']
@@ -312,6 +332,9 @@ def run(case):
         exc = e
       log.add('reregister', op['probe'], op['interactive'],
               type(exc).__name__ if exc else None)
+      if exc is None:
+        # another object now owns the name
+        originals.pop(op['probe'], None)
       if op['interactive']:
         if exc is None:
           current[op['probe']] = spec
@@ -328,6 +351,26 @@ def run(case):
           op['probe'])
         current[op['probe']] = spec
         objs[op['probe']] = new
+    elif k == 'relist':
+      # only the registration made through this run's first specs can be
+      # repeated with the same object
+      if op['probe'] not in originals:
+        continue
+      spec = op['spec']
+      exc = None
+      try:
+        new = probes.register_probe(spec, originals[op['probe']])
+      except Exception as e:  # pylint: disable=broad-except
+        exc = e
+      log.add('relist', op['probe'], type(exc).__name__ if exc else None)
+      if exc is None:
+        current[op['probe']] = spec
+        objs[op['probe']] = new
+        stats['relisted'] += 1
+        for key in [kk for kk in model if kk[1] == cm.full_name(spec)]:
+          if not cm.configurable_param(spec, key[2]):
+            del model[key]
+      # (gin may refuse a repeated registration of a class; not judged)
     elif k == 'call':
       spec = current[op['probe']]
       full = cm.full_name(spec)
@@ -444,7 +487,9 @@ def run(case):
                      stats['rejected_nonempty'],
                  'finalize_rejected_by_hook_key': stats['hook_rejected']},
       'probes': {'hook_mappings_applied': stats['hook_applied'],
-                 'reregistered_in_interactive_mode': stats['reregistered']},
+                 'reregistered_in_interactive_mode': stats['reregistered'],
+                 'same_object_registered_again_with_other_lists':
+                     stats['relisted']},
       'sample_obs': [probes.stable(e) for e in log.events[:8]],
   }
 
